@@ -52,8 +52,10 @@ fn classify(bt: &str) -> (bool, String) {
         }
         // Source paths decide (a library generic instantiated with a harness stream type carries both
         // crate names in its symbol); symbol prefixes are the fallback when a frame has no path.
-        let path_lib = at.contains("repo/src/");
-        let path_har = at.contains("harness/src/");
+        // (the harness crate is compiled from its own directory: its frames read `./src/...`; the crate under
+        // test is a path dependency: `/…/repo/src/...`; dependencies: `~/.cargo/registry/...`; std: `/rustc/...`)
+        let path_har = at.starts_with("./src/") || at.starts_with("src/") || at.contains("harness/src/");
+        let path_lib = !path_har && at.contains("/repo/src/");
         let s0 = sym.trim_start_matches('<');
         let lib = path_lib || (!path_har && s0.starts_with("pmtiles2::"));
         let har = path_har || (!path_lib && s0.starts_with("pmverif::"));
@@ -83,9 +85,9 @@ pub fn install_panic_hook() {
             .unwrap_or_default();
         let bt = std::backtrace::Backtrace::force_capture().to_string();
         let (mut harness, mut frame) = classify(&bt);
-        if file.contains("harness/src/") {
+        if file.starts_with("src/") || file.starts_with("./src/") || file.contains("harness/src/") {
             harness = true;
-        } else if file.contains("repo/src/") {
+        } else if file.contains("/repo/src/") {
             // the panic site itself lies in the crate under test
             harness = false;
             frame = file.rsplit('/').next().unwrap_or("").to_string();
